@@ -334,6 +334,15 @@ def make_singular(rng, tier, idx):
             else:
                 a = crandn(rng, D, r)
             Pn[f] = a @ herm(a)
+    if cls in ('zero', 'zerorow') and _SCOUNT[0] % 4 == 1:
+        # spatially white (uncorrelated) noise model: a REAL diagonal noise PSD, float64 typed, with silent bins
+        Pn = np.stack([np.diag(rng.uniform(0.5, 2.0, D)) for _ in range(F)])
+        for f in bins:
+            if cls == 'zero':
+                Pn[f] = 0
+            else:
+                k = int(rng.integers(0, D))
+                Pn[f][k, k] = 0
     auto = bool(rng.random() < 0.3)
     _SCOUNT[0] += 1
     single = cls in ('zero', 'zerorow') and _SCOUNT[0] % 3 == 0
